@@ -360,12 +360,19 @@ func runD1c(p *an.Prog, r *an.Result) {
 			continue
 		}
 		name := an.FuncName(fn)
-		for _, mk := range callsNamed(fn, "(reflect.Value).MapKeys") {
-			// the sort call that orders this key slice
+		keyLists := callsNamed(fn, "(reflect.Value).MapKeys")
+		ranges := callsNamed(fn, "(reflect.Value).MapRange")
+		for _, mk := range append(keyLists, ranges...) {
+			// the sort call that orders this key slice (or the slice of pairs collected from the iterator)
 			var sortCall *ssa.Call
+			isRange := an.CallName(&mk.Call) == "(reflect.Value).MapRange"
 			an.EachInstr(fn, func(in ssa.Instruction) {
 				c, ok := in.(*ssa.Call)
 				if !ok || !isSortCall(an.CallName(&c.Call)) {
+					return
+				}
+				if isRange && mapRangeCollectedAndSorted(fn, mk) {
+					sortCall = c
 					return
 				}
 				if eqVal(an.Deref(c.Call.Args[0]), mk) || an.Reaches(c.Call.Args[0], an.StepValue, func(v ssa.Value) bool { return v == ssa.Value(mk) }) {
@@ -411,7 +418,7 @@ func runD1c(p *an.Prog, r *an.Result) {
 								continue
 							}
 							n := an.CallName(c)
-							if strings.HasPrefix(n, "(reflect.Value).") || n == "fmt.Sprint" || n == "fmt.Sprintf" || (c.StaticCallee() != nil && unit[c.StaticCallee()]) {
+							if strings.HasPrefix(n, "(reflect.Value).") || strings.HasPrefix(n, "(reflect.Type).") || strings.HasPrefix(n, "(*reflect.rtype).") || n == "fmt.Sprint" || n == "fmt.Sprintf" || (c.StaticCallee() != nil && unit[c.StaticCallee()]) {
 								continue
 							}
 							lossy = append(lossy, n+" at "+p.Pos(o.Pos()))
